@@ -30,7 +30,18 @@ def unbits(b):
 
 # ---- tagged values ------------------------------------------------------------------------------------------------
 
-def enc_val(x):
+OBJECTS = {}      # id -> (token, object): elements of object-dtype series (a tracer's Trace objects, None) are opaque
+
+
+def token_of(x):
+    if id(x) not in OBJECTS:
+        OBJECTS[id(x)] = (f'<obj{len(OBJECTS)}>', x)       # keeps the object alive, so ids are not reused
+    return OBJECTS[id(x)][0]
+
+
+def enc_val(x, opaque=False):
+    if opaque:
+        return ['s', token_of(x)]
     if isinstance(x, (bool, np.bool_)):
         return ['b', bool(x)]
     if isinstance(x, (int, np.integer)):
@@ -47,7 +58,7 @@ def dec_val(j):
     return {'b': bool, 'i': int, 'f': unbits, 's': str}[t](v)
 
 
-KIND_OF_NP = {'f': 'f', 'i': 'i', 'b': 'b', 'U': 'U'}
+KIND_OF_NP = {'f': 'f', 'i': 'i', 'b': 'b', 'U': 'U', 'O': 'O'}
 NP_DTYPE = {'f': 'float64', 'i': 'int64', 'b': 'bool'}
 PYTYPE = {'f': float, 'i': int, 'b': bool, 'U': str}
 
@@ -59,7 +70,7 @@ def enc_operand(v):
         if k not in KIND_OF_NP:
             raise TypeError(f'ndarray dtype outside the alphabet: {v.dtype}')
         return {'t': 'nd', 'k': k, 'w': v.dtype.itemsize // 4 if k == 'U' else 0, 'shape': list(v.shape),
-                'data': [enc_val(x) for x in v.flatten().tolist()]}
+                'data': [enc_val(x, opaque=(k == 'O')) for x in v.flatten().tolist()]}
     if isinstance(v, range):
         return {'t': 'list', 'xs': [enc_val(x) for x in v], 'py': 'range', 'range': [v.start, v.stop, v.step]}
     if isinstance(v, (list, tuple)):
@@ -100,6 +111,12 @@ def live_operand(j, obj, ext):
     """Operands that are *live objects*: `{'t': 'ref', 'name', 'how'}` = one of the object's own arrays (or a view of
     it), `{'t': 'ext', 'id', ...nd fields}` = an array owned by the caller, the same object every time the id is used.
     Returns (python value, value-semantics operand for the model = what the array holds right now)."""
+    if j['t'] == 'obj':
+        if ('obj', j['id']) not in ext:
+            from fsic.extensions.model import Trace
+            ext[('obj', j['id'])] = Trace(names=['Y'])
+        py = ext[('obj', j['id'])]
+        return py, {'t': 'scalar', 'v': ['s', token_of(py)]}
     if j['t'] == 'ref':
         py = REF_HOW[j['how']](obj, j['name'])
     else:
@@ -229,6 +246,16 @@ class _L(fsic.BaseLinker):
     CHECK = ENDOGENOUS
 
 
+_TRACER = []
+
+
+def tracer_class():
+    if not _TRACER:
+        from fsic.extensions.model import TracerMixin
+        _TRACER.append(type('_TM', (TracerMixin, _M), {}))
+    return _TRACER[0]
+
+
 _BUILT = []
 
 
@@ -285,6 +312,8 @@ def build_object(case):
         return VectorContainer(span, strict=strict), 0, 0
     if fl == 'model':
         return _M(span, strict=strict), 0, 0
+    if fl == 'tracer':
+        return tracer_class()(span, strict=strict), 0, 0
     if fl == 'built':
         return built_class()(span, strict=strict), 0, 0
     if fl == 'linker':
@@ -319,6 +348,8 @@ def val_str(x, kind):
         return 'bT' if x else 'bF'
     if kind == 'U':
         return 's' + str(x).encode('utf-8').hex()
+    if kind == 'O':
+        return 's' + token_of(x).encode('utf-8').hex()
     return '?' + kind
 
 
@@ -363,6 +394,7 @@ def dump_state(obj):
     names = index if isinstance(index, list) else []
     series = [_safe(lambda n=n: _series_str(obj, n)) for n in names]
     return ('index=' + (','.join(index) if isinstance(index, list) else index) +
+            '|names=' + _safe(lambda: ','.join(own_names(obj))) +
             '|attrs=' + _safe(lambda: ','.join(obj._attributes)) +
             '|strict=' + _safe(lambda: 'T' if obj.strict else 'F') +
             '|size=' + _safe(lambda: str(obj.size)) + '|nbytes=' + _safe(lambda: str(obj.nbytes)) +
@@ -371,6 +403,8 @@ def dump_state(obj):
 
 def read_str(r):
     if not isinstance(r, (np.ndarray, np.generic)):
+        if id(r) in OBJECTS:          # an element of an object-dtype series
+            return 'e:' + val_str(r, 'O')
         return 'other'
     a = np.asarray(r)
     if a.ndim == 0:
@@ -434,7 +468,7 @@ def closest(name, names):
 
 # ---- execution ----------------------------------------------------------------------------------------------------
 
-READS = ('getItem', 'getAttr', 'getPos', 'getLabel', 'getLabelSlice')
+READS = ('getItem', 'getAttr', 'getPos', 'getLabel', 'getLabelSlice', 'contains')
 
 
 def _slice_labels(item):
@@ -485,6 +519,8 @@ def apply_item(obj, item):
                 return read_str(obj[name]), None
             elif op == 'getAttr':
                 return read_str(getattr(obj, name)), None
+            elif op == 'contains':
+                return 'c:T' if name in obj else 'c:F', None
             elif op == 'getPos':
                 return read_str(obj[name][item['i']]), None
             elif op == 'getLabel':
@@ -527,7 +563,7 @@ def series_json(a):
     a = np.asarray(a)
     k = a.dtype.kind
     return {'k': k, 'w': a.dtype.itemsize // 4 if k == 'U' else 0, 'shape': list(a.shape),
-            'data': [enc_val(x) for x in a.flatten().tolist()]}
+            'data': [enc_val(x, opaque=(k == 'O')) for x in a.flatten().tolist()]}
 
 
 def labels_of_items(items):
@@ -563,7 +599,7 @@ def initial_store(obj, case, extra_size, extra_bytes, ids, ref_span=None):
     return {
         'span': span_ids, 'kind': kind, 'getLoc': get_loc,
         'vars': [[n, series_json(obj[n])] for n in obj.index],
-        'hidden': len(obj.index) - len(obj.names) if is_model else 0,
+        'nonNames': [n for n in obj.index if n not in list(obj.names)] if is_model else [],
         'attrs': list(obj._attributes), 'strict': bool(obj.strict),
         'defaultKind': np.dtype(obj.dtype).kind if is_model else None,
         'extraSize': int(extra_size), 'extraBytes': int(extra_bytes),
@@ -583,6 +619,7 @@ def run_segments(case, observer=None):
     None if outside the model, 'impl': per-item impl strings, 'first': index of the segment's first item}].
     `observer(obj, item, before, outcome, exc, decl)` is called after every item (also after a boundary item, with
     the NEW object) with a snapshot taken before it."""
+    OBJECTS.clear()
     obj, extra_size, extra_bytes = build_object(case)
     ids = LabelIds()
     decl = own_names(obj)           # declaration order as the harness has seen it happen
@@ -620,7 +657,7 @@ def run_segments(case, observer=None):
                 closest('values', decl) if item['op'] == 'setValues' else
                 closest('strict', decl) if item['op'] == 'setStrict' else None)
         before = snapshot(obj) if observer else None
-        if 'v' in item and item['v']['t'] in ('ref', 'ext'):
+        if 'v' in item and item['v']['t'] in ('ref', 'ext', 'obj'):
             try:
                 py, mat = live_operand(item['v'], obj, ext)
                 item = {**item, '_py': py, '_mat': mat}
